@@ -19,6 +19,7 @@ def run():
                   vlib.model_check("StopStateImpl", "StopStateImpl_keep.cfg", timeout=900))
     for cfg, what in (("StopStateImpl_no_recheck.cfg", "second winner"),
                       ("StopStateImpl_no_recheck_cb.cfg", "callback registered after the stop never runs"),
+                      ("StopStateImpl_no_spin_recheck.cfg", "second winner after waiting for a registration"),
                       ("StopStateImpl_os_ids_equal.cfg", "destructor does not wait among OS threads")):
         r = vlib.model_check("StopStateImpl", cfg, expect_ok=False, timeout=900)
         chk.add_model("StopStateImpl/variant %s: %s (must violate)" % (cfg[14:-4], what), r, note="violated: %s" % r["violated"])
